@@ -84,6 +84,12 @@ impl Fdt {
             FDTPublishMode::ObjectsBeingTransferred => self.get_files_being_transferred(),
             FDTPublishMode::FullFDT => self.files.values().map(|desc| desc.as_ref()).collect(),
         };
+        #[cfg(feature = "ypo_flute_verif")]
+        let files = {
+            let mut files: Vec<&FileDesc> = files;
+            files.sort_by_key(|desc| desc.toi);
+            files
+        };
 
         FdtInstance {
             xmlns: None,
